@@ -217,7 +217,7 @@ theorem add_maps {ι : Type} {d : List Nat} {Z : List ι} (hZ : Z.length = prod 
 /-! ## Composition of rules along a path of back edges -/
 
 /-- the backward rules along a path of back edges, composed (the rule of the edge nearest to the loss first) -/
-def pullPath (bm : BMode) (H : Heap ℝ) : List (Rule ℝ) → Tensor ℝ → Out (Tensor ℝ)
+noncomputable def pullPath (bm : BMode) (H : Heap ℝ) : List (Rule ℝ) → Tensor ℝ → Out (Tensor ℝ)
   | [], g => .ok g
   | r :: rs, g => (evalRule bm H g r).bind (pullPath bm H rs)
 
@@ -288,14 +288,14 @@ structure BceIds where
   ln : Nat
 
 /-- loss → `ln` → `l` → `s1` → `lg` → `p̂` -/
-def BceIds.pathA (N : BceIds) : List (Rule ℝ) :=
+noncomputable def BceIds.pathA (N : BceIds) : List (Rule ℝ) :=
   [.avgAlongX N.ln 0, .scaleX (-1), .idG, .bcastX N.s1 N.s1b, .mulG N.tb, .bcastX N.lg N.lgb, .logX N.ph]
 /-- loss → `ln` → `l` → `s2` → `lg2` → `y2` → `p̂` -/
-def BceIds.pathB (N : BceIds) : List (Rule ℝ) :=
+noncomputable def BceIds.pathB (N : BceIds) : List (Rule ℝ) :=
   [.avgAlongX N.ln 0, .scaleX (-1), .idG, .bcastX N.s2 N.s2b, .mulG N.t2b, .bcastX N.lg2 N.lg2b, .logX N.y2, .negG,
    .bcastX N.ph N.phb]
 /-- `p̂` → `pmin` → `p` -/
-def BceIds.pathClip (N : BceIds) : List (Rule ℝ) := [.elext N.ph N.pmin N.lo, .elext N.pmin N.p N.up]
+noncomputable def BceIds.pathClip (N : BceIds) : List (Rule ℝ) := [.elext N.ph N.pmin N.lo, .elext N.pmin N.p N.up]
 
 /-- what the forward pass stored in those nodes, position by position over an index list `Z`: `fP` the predictions,
     `τ` the (clipped) targets -/
@@ -386,6 +386,145 @@ theorem bce_local_vjp_gen {ι : Type} (bm : BMode) (H : Heap ℝ) (N : BceIds) (
   intro z _
   unfold bceGrad
   ring
+
+theorem map_zip_fst {β γ δ : Type} (f : β → δ) (T : List β) (P : List γ) (h : T.length ≤ P.length) :
+    (T.zip P).map (fun z => f z.1) = T.map f := by
+  have := congrArg (List.map f) (List.map_fst_zip (l₁ := T) (l₂ := P) h)
+  simpa only [List.map_map, Function.comp_def] using this
+
+theorem map_zip_snd {β γ δ : Type} (f : γ → δ) (T : List β) (P : List γ) (h : P.length ≤ T.length) :
+    (T.zip P).map (fun z => f z.2) = P.map f := by
+  have := congrArg (List.map f) (List.map_snd_zip (l₁ := T) (l₂ := P) h)
+  simpa only [List.map_map, Function.comp_def] using this
+
+/-- the same node values stated on the data of the two inputs: `P` the predictions, `T` the targets; `t̂ = tHat`
+    (`clip(·, 0, 1)`), `p̂ = pHat` (`clip(·, ε, 1−ε)`), constants `ε·p⁰ = ε`, `(1−ε)·p⁰ = 1−ε` -/
+structure BceNodeVals (H : Heap ℝ) (N : BceIds) (n : Nat) (T P : List ℝ) : Prop where
+  p : H.val N.p = ⟨[n], P⟩
+  lo : H.val N.lo = ⟨[n], P.map (fun _ => 1 / 10 ^ 12)⟩
+  up : H.val N.up = ⟨[n], P.map (fun _ => 1 - 1 / 10 ^ 12)⟩
+  pmin : H.val N.pmin = ⟨[n], P.map (fun pv => min pv (1 - 1 / 10 ^ 12))⟩
+  ph : H.val N.ph = ⟨[n], P.map pHat⟩
+  tb : H.val N.tb = ⟨[n], T.map tHat⟩
+  t2b : H.val N.t2b = ⟨[n], T.map (fun tv => 1 - tHat tv)⟩
+  y2 : H.val N.y2 = ⟨[n], P.map (fun pv => 1 - pHat pv)⟩
+  lg : (H.val N.lg).dims = [n]
+  lgb : (H.val N.lgb).dims = [n]
+  s1 : (H.val N.s1).dims = [n]
+  s1b : (H.val N.s1b).dims = [n]
+  phb : (H.val N.phb).dims = [n]
+  lg2 : (H.val N.lg2).dims = [n]
+  lg2b : (H.val N.lg2b).dims = [n]
+  s2 : (H.val N.s2).dims = [n]
+  s2b : (H.val N.s2b).dims = [n]
+  ln : (H.val N.ln).dims = [n]
+
+theorem BceNodeVals.toVals {H : Heap ℝ} {N : BceIds} {n : Nat} {T P : List ℝ} (hT : T.length = n) (hP : P.length = n)
+    (h : BceNodeVals H N n T P) : BceVals H N n (T.zip P) (fun z => z.2) (fun z => tHat z.1) where
+  p := by rw [h.p, List.map_snd_zip (by omega)]
+  lo := by rw [h.lo, map_zip_snd (fun _ => (1 : ℝ) / 10 ^ 12) T P (by omega)]
+  up := by rw [h.up, map_zip_snd (fun _ => (1 : ℝ) - 1 / 10 ^ 12) T P (by omega)]
+  pmin := by rw [h.pmin, map_zip_snd (fun pv => min pv ((1 : ℝ) - 1 / 10 ^ 12)) T P (by omega)]
+  ph := by rw [h.ph, map_zip_snd pHat T P (by omega)]
+  tb := by rw [h.tb, map_zip_fst tHat T P (by omega)]
+  t2b := by rw [h.t2b, map_zip_fst (fun tv => 1 - tHat tv) T P (by omega)]
+  y2 := by rw [h.y2, map_zip_snd (fun pv => 1 - pHat pv) T P (by omega)]
+  lg := h.lg
+  lgb := h.lgb
+  s1 := h.s1
+  s1b := h.s1b
+  phb := h.phb
+  lg2 := h.lg2
+  lg2b := h.lg2b
+  s2 := h.s2
+  s2b := h.s2b
+  ln := h.ln
+
+/-- **BCE, local backward pass**: for every batch size `n ≥ 1`, all predictions `P`, all targets `T` and every upstream
+    gradient `c` (the all-ones seed is `c = 1`): the pullbacks along the two paths loss → `p̂` succeed, their sum `G` is
+    what accumulates at `p̂`, and pulled through the clip the prediction receives, at position `i`,
+    `bceGrad c n (tHat Tᵢ) Pᵢ = c · (−1/n) · (t̂ᵢ/p̂ᵢ − (1−t̂ᵢ)/(1−p̂ᵢ)) · clipD ε (1−ε) Pᵢ`. -/
+theorem bce_local_vjp (bm : BMode) (H : Heap ℝ) (N : BceIds) (n : Nat) (hn : 0 < n) (T P : List ℝ)
+    (hT : T.length = n) (hP : P.length = n) (hv : BceNodeVals H N n T P) (c : ℝ) :
+    ∃ A B G,
+      pullPath bm H N.pathA ⟨[], [c]⟩ = .ok A ∧ pullPath bm H N.pathB ⟨[], [c]⟩ = .ok B ∧
+      vArith .add A B = .ok G ∧
+      pullPath bm H N.pathClip G = .ok ⟨[n], List.zipWith (fun tv pv => bceGrad c n (tHat tv) pv) T P⟩ := by
+  obtain ⟨A, B, G, h1, h2, h3, h4⟩ := bce_local_vjp_gen bm H N n hn (T.zip P) (by simp [hT, hP])
+    (fun z => z.2) (fun z => tHat z.1) (hv.toVals hT hP) c
+  refine ⟨A, B, G, h1, h2, h3, ?_⟩
+  rw [h4, C12x.zipWith_as_map]
+
+/-- **BCE gradient = derivative of the BCE formula where the prediction is strictly inside the clip band, 0 where it is
+    strictly outside** (strictly: by more than the library's equality threshold `θ = 1e-240`; in between the tie rule
+    of ElMax / ElMin gives half the value, `clipD_tie`). The targets enter as `t̂ = clip(t, 0, 1)`. -/
+theorem bce_local_vjp_cases (bm : BMode) (H : Heap ℝ) (N : BceIds) (n : Nat) (hn : 0 < n) (T P : List ℝ)
+    (hT : T.length = n) (hP : P.length = n) (hv : BceNodeVals H N n T P) (c : ℝ) :
+    ∃ A B G K,
+      pullPath bm H N.pathA ⟨[], [c]⟩ = .ok A ∧ pullPath bm H N.pathB ⟨[], [c]⟩ = .ok B ∧
+      vArith .add A B = .ok G ∧ pullPath bm H N.pathClip G = .ok K ∧ K.dims = [n] ∧ K.data.length = n ∧
+      ∀ (i : Nat) (hi : i < n) (tv pv : ℝ), T[i]? = some tv → P[i]? = some pv →
+        (1 / 10 ^ 12 + 1 / 10 ^ 240 < pv → pv < 1 - 1 / 10 ^ 12 - 1 / 10 ^ 240 →
+          K.data[i]? = some (c * (-1 / (n : ℝ)) * (tHat tv / pv - (1 - tHat tv) / (1 - pv)))) ∧
+        (pv < 1 / 10 ^ 12 - 1 / 10 ^ 240 ∨ 1 - 1 / 10 ^ 12 + 1 / 10 ^ 240 < pv → K.data[i]? = some 0) := by
+  obtain ⟨A, B, G, h1, h2, h3, h4⟩ := bce_local_vjp bm H N n hn T P hT hP hv c
+  refine ⟨A, B, G, _, h1, h2, h3, h4, rfl, by simp [hT, hP], ?_⟩
+  intro i hi tv pv ht hp
+  have hget : (List.zipWith (fun tv pv => bceGrad c n (tHat tv) pv) T P)[i]? = some (bceGrad c n (tHat tv) pv) := by
+    rw [List.getElem?_zipWith, ht, hp]; rfl
+  refine ⟨fun a b => ?_, fun a => ?_⟩
+  · rw [hget, bceGrad_inside c n _ pv a b]
+  · rw [hget, bceGrad_outside c n _ pv a]
+
+/-! ## CE -/
+
+/-- broadcasting a tensor all of whose elements are `a` gives the all-`a` tensor of the target shape -/
+theorem broadcast_const {α : Type} (t : Tensor α) (hwf : t.WF) (a : α) (ha : ∀ x ∈ t.data, x = a) (shape : List Nat)
+    (hpos : ∀ h ∈ shape, 0 < h) (hv : validBroadcast t.dims shape = true) :
+    t.broadcastRaw shape = some ⟨shape, List.replicate (prod shape) a⟩ := by
+  obtain ⟨data, h1, h2, h3⟩ := broadcastRaw_spec t hwf shape hpos hv
+  have hat : ∀ u v, t.at? u = some v → v = a := by
+    intro u v h
+    unfold Tensor.at? at h
+    split at h
+    · cases ho : offset t.dims u with
+      | none => rw [ho] at h; simp at h
+      | some o =>
+        rw [ho] at h
+        simp only [Option.bind_some] at h
+        exact ha v (List.mem_of_getElem? h)
+    · simp at h
+  have : data = List.replicate (prod shape) a := by
+    apply List.ext_getElem?
+    intro k
+    by_cases hk : k < prod shape
+    · obtain ⟨e1, e2⟩ := h3 k hk
+      rw [List.getElem?_replicate, if_pos hk]
+      cases hv' : data[k]? with
+      | none => rw [hv'] at e2; simp at e2
+      | some v =>
+        rw [hv'] at e1
+        rw [hat _ v e1.symm]
+    · rw [List.getElem?_eq_none (by omega), List.getElem?_eq_none (by simp; omega)]
+  rw [h1, this]
+
+/-- `reducerBroadcasted` of a constant rank-1 gradient `[m]` towards a `[m, n]` operand reduced along dimension 1 -/
+theorem reducerBroadcasted_const (a : ℝ) (m n : Nat) (hm : 0 < m) (hn : 0 < n) :
+    reducerBroadcasted (⟨[m], List.replicate m a⟩ : Tensor ℝ) [m, n] 1 = .ok ⟨[m, n], List.replicate (m * n) a⟩ := by
+  have hwf : (⟨[m], List.replicate m a⟩ : Tensor ℝ).WF := ⟨by simp [prod], by simpa using hm⟩
+  have hu : vUnSqueeze (⟨[m], List.replicate m a⟩ : Tensor ℝ) ((1 : Nat) : Int) = .ok ⟨[m, 1], List.replicate m a⟩ := by
+    simp [vUnSqueeze, validUnSqueeze, C06.unsqueeze_data _ hwf, Out.ofOpt, unsqueezeDims]
+  have hwf2 : (⟨[m, 1], List.replicate m a⟩ : Tensor ℝ).WF := ⟨by simp [prod], by simp; omega⟩
+  have hpos : ∀ h ∈ [m, n], 0 < h := by simp; omega
+  have hb : vBroadcastN (⟨[m, 1], List.replicate m a⟩ : Tensor ℝ) [m, n] = .ok ⟨[m, n], List.replicate (m * n) a⟩ := by
+    unfold vBroadcastN vBroadcast
+    rw [validInputDims_ofNat _ hpos, natDims_ofNat]
+    have hv : validBroadcast [m, 1] [m, n] = true := by simp [validBroadcast, validBroadcastLE]
+    rw [hv]
+    simp only [Bool.and_self, if_true]
+    rw [broadcast_const _ hwf2 a (by intro x hx; exact List.eq_of_mem_replicate hx) [m, n] hpos hv]
+    simp [Out.ofOpt, prod]
+  simp only [reducerBroadcasted, bind, Out.bind, hu, hb]
 
 end C13x
 end Qeep
